@@ -39,6 +39,33 @@
 //     dns.Msg, caches, …) is abstract: parameters of such types are dropped and
 //     an expression that reads from them (`req.Question[0].Qtype`) becomes an
 //     extra parameter `e<k>_<name>` holding its value;
+//   - a keyed literal `T{…}` of a translated struct type is the Lean structure
+//     value (missing fields zero), `&T{…}` is `some` of it;
+//   - with `"symbolic": true` in the spec file, values of abstract types are
+//     *tokens* instead of being dropped: Lean `String` (`Option String` for Go
+//     types that have nil: pointers, interfaces, slices, maps, funcs).  Tokens
+//     come from parameters, struct fields, opaque calls and opaque values, so a
+//     theorem that quantifies over them covers every value; `==` on abstract
+//     values is equality of tokens; `T{}` is the token "" (the zero value), a
+//     keyed literal `T{f: v}` of an abstract struct is the token "T{f=v;}"
+//     built from its scalar/token field values; a package-level variable is
+//     the token of its name; type assertions and slice expressions on abstract
+//     values are opaque values; fmt.Errorf / errors.New are non-nil error
+//     texts also in traced functions.  Nil dereferences of abstract pointers
+//     and mutation through them are not modelled (calls on them are trace
+//     entries);
+//   - in symbolic mode trace entries also show arguments that are tokens
+//     (`toString` of an `Option String`), translated structs (`reprStr`), values
+//     read through a pointer ("<nil-deref>" if it is nil) and nested opaque
+//     calls as tokens ("x.M(a)" on an abstract `x`, "f(a)", "T(f(a))"); a
+//     method call on an abstract value has
+//     the receiver's token as its first trace argument;
+//   - in symbolic mode a store into an abstract value (`x.f = v`, `x[i] = v`)
+//     is the trace entry ("x.f =", [v]) and `append` on a slice of abstract
+//     type is an opaque call; `var x T` of a translated struct type is its
+//     zero value;
+//   - the ignore entry "defer func" drops a deferred closure (pool returns,
+//     error annotation that keeps nil-ness);
 //   - a *value* of abstract type (local, result of an opaque call, parameter
 //     that is compared with nil) is modelled by what the code can observe of
 //     it: `AbsPtr` (true = non-nil) for pointers, interfaces, maps, slices, …,
@@ -130,6 +157,8 @@ type TrFunc struct {
 
 type trSpecFile struct {
 	Funcs []TrFunc `json:"funcs"`
+	// Symbolic turns values of abstract types into tokens (see the header).
+	Symbolic bool `json:"symbolic,omitempty"`
 }
 
 type loadedPkg struct {
@@ -240,6 +269,8 @@ type translator struct {
 	funcs   map[string]*funcOut // key: pkgpath + "." + Recv.Name
 	byDecl  map[string]TrFunc
 	out     []*funcOut
+	// symbolic: values of abstract types are tokens (String / Option String).
+	symbolic bool
 }
 
 type funcOut struct {
@@ -256,8 +287,25 @@ type funcOut struct {
 	busy    bool
 }
 
-// leanType returns the Lean type of a Go type, or "" if untranslatable.
+// leanType returns the Lean type of a Go type, or "" if untranslatable.  In
+// symbolic mode an abstract type is a token: `Option String` if the Go type has
+// nil (pointer, interface, slice, map, func, chan), `String` otherwise.
 func (t *translator) leanType(ty types.Type) string {
+	s := t.leanTypeC(ty)
+	if s == "" && t.symbolic {
+		switch ty.Underlying().(type) {
+		case *types.Pointer, *types.Interface, *types.Slice, *types.Map, *types.Signature, *types.Chan:
+			return "(Option String)"
+		}
+		return "String"
+	}
+	return s
+}
+
+// abstract reports whether ty has no concrete Lean counterpart.
+func (t *translator) abstract(ty types.Type) bool { return t.leanTypeC(ty) == "" }
+
+func (t *translator) leanTypeC(ty types.Type) string {
 	switch u := ty.(type) {
 	case *types.Named:
 		if u.Obj().Pkg() == nil && u.Obj().Name() == "error" {
@@ -266,9 +314,9 @@ func (t *translator) leanType(ty types.Type) string {
 		if st, ok := u.Underlying().(*types.Struct); ok {
 			return t.structType(u, st)
 		}
-		return t.leanType(u.Underlying())
+		return t.leanTypeC(u.Underlying())
 	case *types.Alias:
-		return t.leanType(types.Unalias(u))
+		return t.leanTypeC(types.Unalias(u))
 	case *types.Basic:
 		switch {
 		case u.Info()&types.IsInteger != 0:
@@ -332,7 +380,7 @@ func (t *translator) valType(ty types.Type) string {
 func (t *translator) isAbstract(ty types.Type) bool { return t.leanType(ty) == "" }
 
 func sanitize(s string) string {
-	r := strings.NewReplacer(".", "_", "/", "_", "-", "_", "*", "", "(", "", ")", "", "[", "_", "]", "_", " ", "")
+	r := strings.NewReplacer(".", "_", "/", "_", "-", "_", "*", "", "(", "", ")", "", "[", "_", "]", "_", " ", "", ":", "_")
 	return r.Replace(s)
 }
 
@@ -574,6 +622,9 @@ func (c *fctx) exprAs(e ast.Expr, to types.Type) ex {
 			return c.bindN([]ex{x}, func(s []string) string { return "(" + s[0] + ").isSome" })
 		}
 	}
+	if id, ok := e.(*ast.Ident); ok && id.Name == "nil" && to != nil && strings.HasPrefix(c.t.leanType(to), "(List") {
+		return ex{code: "[]"} // a nil slice of translated element type
+	}
 	if to != nil && isError(to) {
 		if id, ok := e.(*ast.Ident); ok && id.Name == "nil" {
 			return ex{code: "none"}
@@ -644,6 +695,9 @@ func (c *fctx) expr(e ast.Expr) ex {
 				if isError(v.Type()) {
 					return ex{code: fmt.Sprintf("(some %q)", x.Name)}
 				}
+				if c.t.symbolic && c.t.abstract(v.Type()) {
+					return c.token(v.Type(), x.Name)
+				}
 				fail("package-level variable %s", x.Name)
 			}
 			return ex{code: leanIdent(x.Name)}
@@ -672,6 +726,9 @@ func (c *fctx) expr(e ast.Expr) ex {
 				return "(Function.const _ true (" + strings.Join(s, ", ") + "))"
 			})
 		}
+		if cl, ok := x.X.(*ast.CompositeLit); ok && x.Op == token.AND {
+			return c.bindN([]ex{c.expr(cl)}, func(s []string) string { return "(some " + s[0] + ")" })
+		}
 		a := c.expr(x.X)
 		switch x.Op {
 		case token.NOT:
@@ -696,6 +753,13 @@ func (c *fctx) expr(e ast.Expr) ex {
 			}
 			return c.bindN(xs, func(s []string) string { return "[" + strings.Join(s, ", ") + "]" })
 		}
+		if n, ok := types.Unalias(c.typeOf(x)).(*types.Named); ok {
+			if st, ok := n.Underlying().(*types.Struct); ok {
+				if lt := c.t.structType(n, st); lt != "" {
+					return c.structLit(x, st, lt)
+				}
+			}
+		}
 	}
 	if ix, ok := e.(*ast.IndexExpr); ok {
 		if _, isSl := c.typeOf(ix.X).Underlying().(*types.Slice); isSl && c.t.leanType(c.typeOf(ix.X)) != "" && isInt(c.typeOf(ix.Index)) {
@@ -709,8 +773,96 @@ func (c *fctx) expr(e ast.Expr) ex {
 		}
 		return c.opaqueValue(e)
 	}
+	if c.t.symbolic {
+		switch x := e.(type) {
+		case *ast.CompositeLit:
+			if _, ok := c.typeOf(x).Underlying().(*types.Struct); ok && c.t.abstract(c.typeOf(e)) {
+				return c.tokenLit(x)
+			}
+		case *ast.TypeAssertExpr:
+			if c.t.abstract(c.typeOf(e)) || c.t.abstract(c.typeOf(x.X)) {
+				return c.opaqueValue(e)
+			}
+		case *ast.SliceExpr:
+			if c.t.abstract(c.typeOf(e)) || c.t.abstract(c.typeOf(x.X)) {
+				return c.opaqueValue(e)
+			}
+		}
+	}
 	fail("expression %s (%T)", c.show(e), e)
 	return ex{}
+}
+
+// structLit translates a keyed literal of a translated struct type: fields that
+// are not mentioned get their zero value, fields of untranslatable type are
+// dropped (values are evaluated in the order of the fields).
+func (c *fctx) structLit(x *ast.CompositeLit, st *types.Struct, lt string) ex {
+	vals := map[string]ast.Expr{}
+	for _, el := range x.Elts {
+		kv, ok := el.(*ast.KeyValueExpr)
+		if !ok {
+			fail("positional struct literal %s", c.show(x))
+		}
+		vals[kv.Key.(*ast.Ident).Name] = kv.Value
+	}
+	var names []string
+	var xs []ex
+	for i := 0; i < st.NumFields(); i++ {
+		f := st.Field(i)
+		if c.t.leanType(f.Type()) == "" {
+			continue
+		}
+		names = append(names, leanIdent(f.Name()))
+		if v, ok := vals[f.Name()]; ok {
+			xs = append(xs, c.exprAs(v, f.Type()))
+		} else {
+			xs = append(xs, ex{code: c.zero(f.Type())})
+		}
+	}
+	return c.bindN(xs, func(s []string) string {
+		var parts []string
+		for i, n := range names {
+			parts = append(parts, n+" := "+s[i])
+		}
+		return "({ " + strings.Join(parts, ", ") + " } : " + lt + ")"
+	})
+}
+
+// token is a fixed token of abstract type ty (symbolic mode).
+func (c *fctx) token(ty types.Type, name string) ex {
+	if c.t.leanType(ty) == "String" {
+		return ex{code: fmt.Sprintf("%q", name)}
+	}
+	return ex{code: fmt.Sprintf("(some %q)", name)}
+}
+
+// tokenLit is the token of a literal of an abstract struct type: "" for the
+// zero value `T{}`, otherwise "T{f=v;…}" over the keyed fields whose values are
+// integers, booleans, strings or tokens.
+func (c *fctx) tokenLit(x *ast.CompositeLit) ex {
+	if len(x.Elts) == 0 {
+		return ex{code: `""`}
+	}
+	var names []string
+	var xs []ex
+	for _, el := range x.Elts {
+		kv, ok := el.(*ast.KeyValueExpr)
+		if !ok {
+			fail("positional literal %s", c.show(x))
+		}
+		v := c.expr(kv.Value)
+		if lt := c.t.leanType(c.typeOf(kv.Value)); lt != "String" {
+			v = c.bindN([]ex{v}, func(s []string) string { return "(toString " + s[0] + ")" })
+		}
+		names, xs = append(names, c.show(kv.Key)), append(xs, v)
+	}
+	return c.bindN(xs, func(s []string) string {
+		r := fmt.Sprintf("%q", c.show(x.Type)+"{")
+		for i, n := range names {
+			r += fmt.Sprintf(" ++ %q ++ %s", n+"=", s[i]) + ` ++ ";"`
+		}
+		return "(" + r + ` ++ "}")`
+	})
 }
 
 // opaqueValue turns an expression the subset cannot express (an element of a
@@ -752,6 +904,9 @@ func (c *fctx) selector(x *ast.SelectorExpr) ex {
 			if isError(c.typeOf(x)) {
 				return ex{code: fmt.Sprintf("(some %q)", c.show(x))}
 			}
+			if c.t.symbolic && c.t.abstract(c.typeOf(x)) {
+				return c.token(c.typeOf(x), c.show(x))
+			}
 			fail("package-qualified value %s", c.show(x))
 		}
 	}
@@ -759,7 +914,7 @@ func (c *fctx) selector(x *ast.SelectorExpr) ex {
 	if sel == nil || sel.Kind() != types.FieldVal {
 		fail("selector %s is not a field", c.show(x))
 	}
-	if bt := c.typeOf(x.X); c.t.leanType(bt) == "" {
+	if bt := c.typeOf(x.X); c.t.abstract(bt) {
 		return c.opaqueValue(x)
 	}
 	if len(sel.Index()) != 1 {
@@ -834,7 +989,7 @@ func (c *fctx) binary(x *ast.BinaryExpr) ex {
 			var r string
 			if isBool(tx) {
 				r = "(" + s[0] + " == " + s[1] + ")"
-			} else if isInt(tx) || isString(tx) {
+			} else if isInt(tx) || isString(tx) || (c.t.symbolic && c.t.abstract(tx)) {
 				r = "(decide (" + s[0] + " = " + s[1] + "))"
 			} else {
 				fail("equality on %s", tx)
@@ -950,7 +1105,11 @@ func (c *fctx) call(x *ast.CallExpr) ex {
 	}
 	// builtins
 	if id, ok := x.Fun.(*ast.Ident); ok {
-		if _, isB := c.p.info.Uses[id].(*types.Builtin); isB {
+		_, isB := c.p.info.Uses[id].(*types.Builtin)
+		if isB && id.Name == "append" && c.t.symbolic && c.t.abstract(c.typeOf(x)) {
+			isB = false // append on a slice of abstract type: an opaque call
+		}
+		if isB {
 			switch id.Name {
 			case "append":
 				sl, ok := c.typeOf(x.Args[0]).Underlying().(*types.Slice)
@@ -1117,6 +1276,12 @@ func (c *fctx) call(x *ast.CallExpr) ex {
 // values of those arguments that are pure expressions of translatable type.
 func (c *fctx) traceEntry(x *ast.CallExpr) string {
 	var args []string
+	if se, ok := x.Fun.(*ast.SelectorExpr); ok && c.t.symbolic {
+		// a method of an abstract value: the receiver's token comes first
+		if sel := c.p.info.Selections[se]; sel != nil && sel.Kind() == types.MethodVal && c.t.abstract(sel.Recv()) {
+			args = append(args, c.traceArg(se.X))
+		}
+	}
 	for _, a := range x.Args {
 		args = append(args, c.traceArg(a))
 	}
@@ -1139,8 +1304,24 @@ func (c *fctx) traceArg(a ast.Expr) (code string) {
 	if !ok || tv.Type == nil {
 		return code
 	}
+	if call, ok := a.(*ast.CallExpr); ok && c.t.symbolic {
+		if r := c.symCall(call); r != "" {
+			return r
+		}
+	}
 	lt := c.t.leanType(tv.Type)
-	if lt != "Int" && lt != "Bool" && lt != "String" && lt != "(Option String)" {
+	render := "(toString %s)"
+	switch {
+	case lt == "String":
+		render = "%s"
+	case lt == "Int" || lt == "Bool":
+	case c.t.symbolic && (lt == "(Option String)" || lt == "(List Int)" || lt == "(List String)"):
+	case lt == "(Option String)":
+		// an error argument: only whether it is nil
+		render = "(if (%s).isSome then \"err\" else \"nil\")"
+	case c.t.symbolic && (strings.HasPrefix(lt, "S_") || strings.HasPrefix(lt, "(Option S_")):
+		render = "(reprStr %s)"
+	default:
 		return code
 	}
 	// Do not let a nested opaque call allocate parameters from here (values
@@ -1173,18 +1354,74 @@ func (c *fctx) traceArg(a ast.Expr) (code string) {
 		}
 	}()
 	e := c.expr(a)
-	if e.partial || strings.Contains(e.code, "«call:") || len(c.opaqueCalls) != savedCalls {
+	if (e.partial && !c.t.symbolic) || strings.Contains(e.code, "«call:") || len(c.opaqueCalls) != savedCalls {
 		return "\"_\""
 	}
 	ok2 = true
-	if lt == "String" {
-		return e.code
+	if e.partial {
+		// symbolic mode: an argument read through a pointer (nil: "<nil-deref>")
+		return fmt.Sprintf("(match %s with | some v => "+render+" | none => \"<nil-deref>\")", e.code, "v")
 	}
-	if lt == "(Option String)" {
-		// an error argument: only whether it is nil
-		return "(if (" + e.code + ").isSome then \"err\" else \"nil\")"
+	return fmt.Sprintf(render, e.code)
+}
+
+// symCall renders an opaque call that occurs as a trace argument as a token:
+// "x.M(a,…)" for a method of an abstract value x, "f(a,…)" for a function that
+// is not translated, "T(…)" for a conversion of such a call ("" if a is none
+// of these; the arguments are rendered like trace arguments).
+func (c *fctx) symCall(call *ast.CallExpr) string {
+	args := func() string {
+		r := `"("`
+		for i, a := range call.Args {
+			if i > 0 {
+				r += ` ++ ","`
+			}
+			r += " ++ " + c.traceArg(a)
+		}
+		return r + ` ++ ")"`
 	}
-	return "(toString " + e.code + ")"
+	if tv, ok := c.p.info.Types[call.Fun]; ok && tv.IsType() {
+		if in, ok := call.Args[0].(*ast.CallExpr); ok && len(call.Args) == 1 && c.symCall(in) != "" {
+			return fmt.Sprintf("(%q ++ %s)", c.show(call.Fun), args())
+		}
+		return ""
+	}
+	key, _ := c.calleeKey(call)
+	if _, translated := c.t.byDecl[key]; translated {
+		return ""
+	}
+	if se, ok := call.Fun.(*ast.SelectorExpr); ok {
+		if sel := c.p.info.Selections[se]; sel != nil && sel.Kind() == types.MethodVal {
+			if r := c.traceArg(se.X); c.t.abstract(sel.Recv()) && r != "\"_\"" {
+				return fmt.Sprintf("(%s ++ %q ++ %s)", r, "."+se.Sel.Name, args())
+			}
+			return ""
+		}
+	}
+	if id, ok := call.Fun.(*ast.Ident); ok {
+		if _, isB := c.p.info.Uses[id].(*types.Builtin); isB {
+			return ""
+		}
+	}
+	return fmt.Sprintf("(%q ++ %s)", c.show(call.Fun), args())
+}
+
+// forget drops the memo entries of opaque parameters that were rolled back.
+func (c *fctx) forget() {
+	kept := map[string]bool{}
+	for _, p := range c.opaque {
+		kept[strings.Fields(p[1:])[0]] = true
+	}
+	for k, n := range c.opaqueVals {
+		if !kept[n] {
+			delete(c.opaqueVals, k)
+		}
+	}
+	for k, n := range c.opaqueCalls {
+		if !kept[n] {
+			delete(c.opaqueCalls, k)
+		}
+	}
 }
 
 func lastName(s string) string {
@@ -1616,6 +1853,13 @@ func (c *fctx) stmts(list []ast.Stmt) string {
 		if c.matches(c.spec.Ignore, x.Call) {
 			return c.stmts(rest)
 		}
+		if _, ok := x.Call.Fun.(*ast.FuncLit); ok {
+			for _, p := range c.spec.Ignore {
+				if p == "defer func" {
+					return c.stmts(rest)
+				}
+			}
+		}
 		// `defer func() { err = errors.Annotate(err, …) }()` only decorates the
 		// text of a non-nil error; nil stays nil.
 		if fl, ok := x.Call.Fun.(*ast.FuncLit); ok && len(fl.Body.List) == 1 {
@@ -1683,6 +1927,10 @@ func (c *fctx) zero(t types.Type) string {
 		return "\"\""
 	case strings.HasPrefix(lt, "(Option"):
 		return "none"
+	case strings.HasPrefix(lt, "S_"):
+		if st, ok := t.Underlying().(*types.Struct); ok {
+			return c.structLit(&ast.CompositeLit{}, st, lt).code
+		}
 	case strings.HasPrefix(lt, "(List"):
 		return "[]"
 	}
@@ -1894,6 +2142,27 @@ func (c *fctx) abstractWrite(lhs ast.Expr, op string, rhs ast.Expr, k func() str
 }
 
 func (c *fctx) assignCode(lhs ast.Expr, code string, k func() string) string {
+	if c.trace && c.t.symbolic {
+		// a store into an abstract value (x.f = v, x[i] = v): a trace entry
+		var base ast.Expr
+		switch l := lhs.(type) {
+		case *ast.SelectorExpr:
+			base = l.X
+		case *ast.IndexExpr:
+			base = l.X
+		}
+		if base != nil && c.t.abstract(c.typeOf(base)) {
+			v := code
+			switch lt := c.t.leanType(c.typeOf(lhs)); {
+			case lt == "String":
+			case lt == "Int" || lt == "Bool" || lt == "(Option String)" || lt == "(List Int)" || lt == "(List String)" || lt == "(List (Option String))":
+				v = "(toString " + code + ")"
+			default:
+				v = "\"_\""
+			}
+			return fmt.Sprintf("let tr := tr ++ [(%q, [%s])]\n", c.show(lhs)+" =", v) + k()
+		}
+	}
 	switch l := lhs.(type) {
 	case *ast.Ident:
 		if l.Name == "_" {
@@ -2171,7 +2440,7 @@ func runTranslator(specDir, outDir, harness, modfile string) error {
 	sort.Strings(props)
 	for _, prop := range props {
 		sf := specs[prop]
-		t := &translator{l: l, structs: map[string]*structDef{}, funcs: map[string]*funcOut{}, byDecl: map[string]TrFunc{}}
+		t := &translator{l: l, structs: map[string]*structDef{}, funcs: map[string]*funcOut{}, byDecl: map[string]TrFunc{}, symbolic: sf.Symbolic}
 		for _, f := range sf.Funcs {
 			t.byDecl[repoModule+f.Pkg+"."+f.Func] = f
 		}
